@@ -324,14 +324,30 @@ fn sop_ops(fc: &FC, rep: &mut Report, rng: &mut Rng) {
     let ms = [1usize, 2, 3, 4, 6, 9, 17];
     let m = ms[rng.next_u32() as usize % ms.len()];
     let spare_bits = 64 * fc.n as u64 - fc.bits;
-    let mode = rng.next_u32() % 4;
+    let mode = rng.next_u32() % 6;
+    // largest raw value below p whose lower limbs are all ones (maximises the low-limb partial products)
+    let low_ones: L = {
+        let mut l = to_limbs(&fc.p, fc.n);
+        if fc.n > 1 && l[fc.n - 1] > 0 {
+            l[fc.n - 1] -= 1;
+            for x in l.iter_mut().take(fc.n - 1) {
+                *x = u64::MAX;
+            }
+            l
+        } else {
+            fc.raw(&(&fc.p - UInt::one()))
+        }
+    };
     let (a, b): (Vec<L>, Vec<L>) = (0..m)
         .map(|_| match mode {
             0 => (fc.raw(&(&fc.p - UInt::one())), fc.raw(&(&fc.p - UInt::one()))), // all operands maximal (raw p-1)
             1 => (fc.enc(&(&fc.p - UInt::one())), fc.enc(&(&fc.p - UInt::one()))),
+            2 => (low_ones.clone(), fc.raw(&(&fc.p - UInt::one()))),
+            3 => (low_ones.clone(), low_ones.clone()),
             _ => fc.gen_pair(rng),
         })
         .unzip();
+    rep.class_if(mode == 2 || mode == 3, "sum_of_products: operands with all-ones low limbs");
     if spare_bits >= 2 {
         let chunk = 2 * spare_bits as usize - 1;
         rep.class_if(m > chunk && m != 2, "sum_of_products: M > chunk_size (several chunks)");
